@@ -40,10 +40,42 @@ Definition f64_is_nan (a : f64) : bool := Binary.is_nan 53 1024 a.
 Definition f64_canon_bits (a : f64) : Z :=
   if f64_is_nan a then 0x7ff8000000000000 else f64_to_bits a.
 
-(* ---- Display.  Rust prints the shortest decimal that round-trips; for a float whose
-   exact decimal expansion has at most 15 significant digits that *is* the exact
-   expansion.  The model prints the exact expansion; see DESIGN.md §8 for the domain on
-   which this is compared with the implementation. ---- *)
+(* ---- decimal to binary64 (Rust's str::parse::<f64>, correctly rounded) ---- *)
+Definition f64_inf (neg : bool) : f64 := B754_infinity 53 1024 neg.
+Definition f64_nan : f64 := f64_of_bits 0x7ff8000000000000.
+Definition f64_zero_s (neg : bool) : f64 := B754_zero 53 1024 neg.
+
+(* M * 10^e rounded to nearest-even.  For e < 0 let D = 10^-e, s = log2 D + 66,
+   q = floor(M*2^s / D) (>= 2^65 since M >= 1) and m = 2q + [remainder <> 0].  The exact
+   quotient x and y = m * 2^-(s+1) lie in the same interval [q, q+1) * 2^-s, both equal to
+   its left end or both strictly inside; every binary64 value and every midpoint of two
+   neighbouring ones is a multiple of 2^-s * 2^12 at least, so x and y round alike. *)
+Definition f64_of_decimal (neg : bool) (m e : Z) (nd : nat) : f64 :=
+  if (m =? 0)%Z then f64_zero_s neg
+  else
+    let sm := if neg then (- m)%Z else m in
+    if (0 <=? e)%Z then
+      if (400 <? e)%Z then f64_inf neg
+      else Binary.binary_normalize 53 1024 eq_refl eq_refl mode_NE (sm * 10 ^ e)%Z 0 false
+    else
+      if (400 + Z.of_nat nd <? - e)%Z then f64_zero_s neg
+      else
+        let d := (10 ^ (- e))%Z in
+        let s := (Z.log2 d + 66)%Z in
+        let q := (m * 2 ^ s / d)%Z in
+        let r := ((m * 2 ^ s) mod d)%Z in
+        let mm := (2 * q + (if (r =? 0)%Z then 0 else 1))%Z in
+        Binary.binary_normalize 53 1024 eq_refl eq_refl mode_NE
+          (if neg then - mm else mm)%Z (- (s + 1))%Z false.
+
+
+(* ---- Display.  Rust prints the SHORTEST decimal that reads back as the same float, and among the
+   shortest ones the closest to the exact value, without exponent.  The exact value of a finite
+   float is I * 10^q for an integer I (I = m * 2^e, q = 0 when e >= 0; I = m * 5^-e, q = e
+   otherwise).  For n = 1, 2, ... the two n-digit neighbours of I (floor and ceiling of
+   I / 10^(L-n), L the number of digits of I) are tried with f64_of_decimal; the first n for which
+   one of them reads back gives the text.  n = L always succeeds (I itself), so the search is
+   bounded by L (at most 17 in practice). ---- *)
 
 Fixpoint pad_zeros (n : nat) (s : str) : str :=
   match n with O => s | S n' => 48%N :: pad_zeros n' s end.
@@ -56,19 +88,48 @@ Fixpoint strip_trailing_zeros_rev (r : str) : str :=
 
 Definition strip_trailing_zeros (s : str) : str := rev (strip_trailing_zeros_rev (rev s)).
 
-Definition show_f64_abs (m : positive) (e : Z) : str :=
-  if 0 <=? e then show_Z (Zpos m * 2 ^ e)
+(* the text of I * 10^q, without exponent *)
+Definition show_decimal (i q : Z) : str :=
+  if 0 <=? q then show_Z (i * 10 ^ q)
   else
-    let k := Z.to_nat (- e) in
-    let d := 2 ^ (- e) in
-    let ip := Zpos m / d in
-    let fp := Zpos m mod d in
-    let digs := show_Z (fp * 5 ^ (- e)) in
-    let frac := strip_trailing_zeros (pad_zeros (k - length digs) digs) in
+    let d := 10 ^ (- q) in
+    let ip := i / d in
+    let fp := i mod d in
+    let digs := show_Z fp in
+    let frac := strip_trailing_zeros (pad_zeros (Z.to_nat (- q) - length digs) digs) in
     match frac with
     | [] => show_Z ip
     | _ => show_Z ip ++ 46%N :: frac
     end.
+
+Definition same_bits (a b : f64) : bool := f64_to_bits a =? f64_to_bits b.
+
+Fixpoint shortest_from (fuel : nat) (x : f64) (i q : Z) (len n : nat) : str :=
+  match fuel with
+  | O => show_decimal i q
+  | S fuel' =>
+      if (len <=? n)%nat then show_decimal i q
+      else
+        let k := Z.of_nat (len - n) in
+        let p := 10 ^ k in
+        let lo := i / p in
+        let r := i mod p in
+        let hi := lo + 1 in
+        let ok_lo := same_bits (f64_of_decimal false lo (q + k) len) x in
+        let ok_hi := same_bits (f64_of_decimal false hi (q + k) len) x in
+        if ok_lo && ok_hi then
+          (* both read back: the closer one; exactly half-way: the upper one (as Rust's flt2dec does) *)
+          if 2 * r <? p then show_decimal lo (q + k) else show_decimal hi (q + k)
+        else if ok_lo then show_decimal lo (q + k)
+        else if ok_hi then show_decimal hi (q + k)
+        else shortest_from fuel' x i q len (S n)
+  end.
+
+Definition show_f64_abs (m : positive) (e : Z) : str :=
+  let x : f64 := Binary.binary_normalize 53 1024 eq_refl eq_refl mode_NE (Zpos m) e false in
+  let '(i, q) := if 0 <=? e then (Zpos m * 2 ^ e, 0) else (Zpos m * 5 ^ (- e), e) in
+  let len := length (show_Z i) in
+  shortest_from len x i q len 1.
 
 Definition show_f64 (f : f64) : str :=
   match f with
